@@ -223,11 +223,11 @@ func runSession(t *tlog, o sessionOpts, rng *rand.Rand) (stats map[string]int, e
 	ls := script(o.lines, rng, o.tracking)
 	if o.end == "backlog" && len(ls) > 50 {
 		// server PINGs at and around the position where the receive queue (32 lines) is exactly full behind the held handler
-		var pings []tline
-		for k := 0; k < 12; k++ {
-			pings = append(pings, tline{raw: fmt.Sprintf("PING :srv-token-%d", k), verb: "PING"})
+		// (behind the slow CONNECTED handler lines 2..33 fill the queue, behind the held handler of line 3 lines 4..35)
+		for n, at := range []int{34, 37, 40, 43} {
+			ping := tline{raw: fmt.Sprintf("PING :srv-token-%d", n), verb: "PING"}
+			ls = append(ls[:at:at], append([]tline{ping}, ls[at:]...)...)
 		}
-		ls = append(ls[:30:30], append(pings, ls[30:]...)...)
 	}
 	if o.end == "eof" {
 		// a server announces the end of the link before it closes it
@@ -379,6 +379,10 @@ func runSession(t *tlog, o sessionOpts, rng *rand.Rand) (stats map[string]int, e
 			}
 			if o.linger && rnd(6) == 0 {
 				time.Sleep(time.Duration(50+rnd(400)) * time.Microsecond)
+			}
+			if o.end == "backlog" && kind == "fg" && h == "f1" && l.Cmd == "PING" {
+				// a slow foreground PING handler: nothing later may be applied while it runs
+				time.Sleep(45 * time.Millisecond)
 			}
 			if out == "block" {
 				atomic.AddInt32(&nblocked, 1)
